@@ -104,7 +104,7 @@ async def run_case(ctx, rng, index):
         # a schema marked @nonIntrospectable refuses introspection
         if index % 5 == 0:
             s.non_introspectable = True
-            parts2 = sdlgen.chunks(rng, s, 0.0)
+            parts2 = sdlgen.chunks(rng, s, 0.9)     # the directive may sit on `schema`, on `extend schema @d`, or on `extend schema @d {..}`
             try:
                 b = harness.Bundle(s, sdl="\n\n".join(parts2))
                 await b.build()
